@@ -491,3 +491,27 @@ def r6(ctx):
             yield r
     if not n:
         yield MISSING("C11-R6", "separators/no-instance", "no separator instance of C01-R4")
+
+
+@M.rule("C11-R7", "header maps are never filled by replacing: no HeaderMap::insert in a loop anywhere in the crate")
+def r7(ctx):
+    """A second way in - `validate_raw_request(method, uri, header pairs, ..)` that assembles the http::Request itself -
+    decides the multiplicity of every header by how it fills the map: `insert` keeps the last value of a repeated name,
+    `append` keeps them all. The reviewed tree never writes a HeaderMap; any `insert` executed repeatedly (in a loop, a
+    fold, an Extend impl of the crate) is reported, as is any removal."""
+    n = 0
+    bad = 0
+    for body in ctx.facts.all_bodies():
+        if body.kind not in ("Fn", "AssocFn", "Closure"):
+            continue
+        for bi, t in body.calls(r"HeaderMap::<T>::(insert|try_insert|remove|clear|drain|retain)$|header::map::(Occupied)?Entry::<'a, T>::(insert\w*|remove\w*)$"):
+            n += 1
+            nm = t["callee"].split("::")[-1]
+            looped = body.in_cycle(bi) or (body.kind == "Closure" and not body.j.get("coroutine_kind"))
+            if nm in ("insert", "try_insert") and not looped:
+                continue  # a single header set once (e.g. on a response being built)
+            bad += 1
+            yield VIOL("C11-R7", "%s/header-map-%s" % (body.path, nm), "`HeaderMap::%s` %s: for a header name that occurs more than once only one value survives, so the multiplicity of a signed header is not what the client sent" % (nm, "runs once per header (loop / closure)" if nm in ("insert", "try_insert") else "drops header values"), where=body.span_of_block(bi))
+    ctx.count(max(1, n))
+    if not bad:
+        yield PASS("C11-R7", "header-maps/never-replaced", "%d HeaderMap writes in the crate, none replacing or dropping values" % n, [])
